@@ -307,6 +307,7 @@ def peekOneBuf (b : Buffer) (testAny : Bool) (test : UInt8 â†’ Bool) : Outcome Ã
 def _root_.Pegtl.Atom.overBuffer : Atom â†’ Bool
   | .utf8Range .. => false
   | .maxDigits _ => false
+  | .repOne _ _ _ => false
   | _ => true
 
 /-- One atom's `match( in )` on a buffer input: `(outcome, result, in)`. -/
@@ -358,6 +359,7 @@ def atomStepBuf (a : Atom) (b : Buffer) : Outcome Ã— Bool Ã— Buffer :=
     | (.done, sz, b) => (.done, sz â‰¥ n, b)
   | .utf8Range .. => (.done, false, b)      -- not transcribed (`Atom.overBuffer` is false)
   | .maxDigits _ => (.done, false, b)       -- not transcribed (`Atom.overBuffer` is false)
+  | .repOne _ _ _ => (.done, false, b)      -- not transcribed (`Atom.overBuffer` is false)
 
 end Buf
 end Pegtl
